@@ -4,19 +4,19 @@
 # non-zero when the property is broken.
 D="$1"; shift
 export GOFLAGS=-mod=mod GOPROXY=off GOSUMDB=off GOTOOLCHAIN=local
-W=/tmp/mrepo
+W=${SEED_W:-/tmp/mrepo}
 git -C /repo worktree list | grep -q "$W" || git -C /repo worktree add --detach $W HEAD -f >/dev/null
 git -C $W checkout -q --detach $(git -C /repo rev-parse HEAD); git -C $W checkout -q -- .; git -C $W clean -fdq
 git -C $W apply "$D/patch.diff" || { echo "PATCH-DOES-NOT-APPLY"; exit 3; }
 T1=$( (cd $W && go test -vet=off -count=1 ./... 2>&1 | grep -c "^FAIL") ); T2=$( (cd $W/lib/go && go test -vet=off -count=1 ./... 2>&1 | grep -c "^FAIL") )
 echo "repo tests with change: root FAIL lines=$T1 lib/go FAIL lines=$T2"
-WORKTREE=$W bash "$D/demo/run.sh" $W > /tmp/seed_demo_with.out 2>&1; echo "demo with change: exit=$?"
+WORKTREE=$W bash "$D/demo/run.sh" $W > /tmp/seed_demo_with${SEED_TAG:-}.out 2>&1; echo "demo with change: exit=$?"
 git -C $W apply -R "$D/patch.diff"
-WORKTREE=$W bash "$D/demo/run.sh" $W > /tmp/seed_demo_without.out 2>&1; echo "demo without change: exit=$?"
+WORKTREE=$W bash "$D/demo/run.sh" $W > /tmp/seed_demo_without${SEED_TAG:-}.out 2>&1; echo "demo without change: exit=$?"
 git -C $W apply "$D/patch.diff"
 for c in "$@"; do
-  VERIF_EVIDENCE_DIR=/tmp/seed_ev VERIF_REPO=$W /verif/check $c > /tmp/seed_check_$c.out 2>&1; rc=$?
-  echo "check $c exit=$rc keys: $(grep '^  key=' /tmp/seed_check_$c.out | head -4 | tr '\n' ' ')"
+  VERIF_EVIDENCE_DIR=/tmp/seed_ev${SEED_TAG:-} VERIF_REPO=$W /verif/check $c > /tmp/seed_check_${SEED_TAG:-}$c.out 2>&1; rc=$?
+  echo "check $c exit=$rc keys: $(grep '^  key=' /tmp/seed_check_${SEED_TAG:-}$c.out | head -4 | tr '\n' ' ')"
 done
 git -C $W checkout -q -- .; git -C $W clean -fdq
 rm -rf /verif/evidence/replays
